@@ -173,4 +173,82 @@ theorem remove_rejected_unchanged (cfg : Cfg) (r : Reg) (p : Option Str)
     (h : (removeProfile cfg r p).2 = some .noSuchProfile) : (removeProfile cfg r p).1 = r :=
   removeProfile_rejected_unchanged cfg r p h
 
+/-! ## the four findings, machine-checked at concrete witnesses
+
+A tiny configuration: one base macro `c ↦ "r"`. Names `A B X U` = `[65] [66] [88] [85]`, property `x` = `[120]`,
+the pattern `{c}` = `[123, 99, 125]`, macro `m` = `[109]`. In each of the first three, two histories lead to
+registries with the same contents and `defaultProfiles` whose compiled patterns — hence verdicts — differ;
+`contents_determine` therefore cannot hold without the guards above. -/
+
+def wcfg : Cfg := { base := [([99], [114])], fuel := 4 }
+def xc : Dict PVal := [([120], .pat [123, 99, 125])]
+
+/-- `removeProfile(all=True)` keeps the macro cache -/
+theorem finding_removeAll :
+    let r₁ := run wcfg (empty wcfg) [.add [65] [] (some [([99], [122])]), .removeAll, .add [66] xc none]
+    let r₂ := run wcfg (empty wcfg) [.add [66] xc none]
+    contents r₁ = contents r₂ ∧ r₁.default = r₂.default ∧
+    dget r₁.compiled [66] = some [([120], .re (wrapRe [40, 63, 58, 122, 41]))] ∧
+    dget r₂.compiled [66] = some [([120], .re (wrapRe [40, 63, 58, 114, 41]))] := by
+  decide
+
+/-- re-adding a registered name with other macros keeps the replaced macros in use -/
+theorem finding_replace :
+    let r₁ := run wcfg (empty wcfg)
+      [.add [88] [] (some [([99], [122])]), .add [88] [] (some [([109], [113])]), .add [66] xc none]
+    let r₂ := run wcfg (empty wcfg) [.add [88] [] (some [([109], [113])]), .add [66] xc none]
+    contents r₁ = contents r₂ ∧ r₁.default = r₂.default ∧
+    dget r₁.compiled [66] = some [([120], .re (wrapRe [40, 63, 58, 122, 41]))] ∧
+    dget r₂.compiled [66] = some [([120], .re (wrapRe [40, 63, 58, 114, 41]))] := by
+  decide
+
+/-- `addProfiles` over a non-empty registry does not re-expand what is registered -/
+theorem finding_addProfiles :
+    let r₁ := run wcfg (empty wcfg)
+      [.add [65] xc none, .addMany [{ name := [66], props := [], macros := some [([99], [122])] }]]
+    let r₂ := run wcfg (empty wcfg) [.add [65] xc none, .add [66] [] (some [([99], [122])])]
+    contents r₁ = contents r₂ ∧ r₁.default = r₂.default ∧
+    dget r₁.compiled [65] = some [([120], .re (wrapRe [40, 63, 58, 114, 41]))] ∧
+    dget r₂.compiled [65] = some [([120], .re (wrapRe [40, 63, 58, 122, 41]))] := by
+  decide
+
+/-- a failed `addProfile` (undefined macro `n`) leaves the name registered without compiled properties:
+`validate` raises `KeyError` for every value no earlier profile accepts, and the profile cannot be removed -/
+theorem finding_failed_add (accepts : CVal → Str → Bool) :
+    let res := addProfile wcfg (empty wcfg) [85] [([120], .pat [123, 110, 125])] none
+    res.2 = some (.keyError [110]) ∧ res.1.names = [[85]] ∧ dget res.1.compiled [85] = none ∧
+    validate accepts res.1 [120] [] = .error (.keyError [85]) ∧
+    (removeProfile wcfg res.1 (some [85])).2 = some .noSuchProfile := by
+  refine ⟨by decide, by decide, by decide, ?_, by decide⟩
+  rfl
+
+/-! ## non-vacuity: the hypotheses of the theorems above are satisfiable (and used) -/
+
+/-- a history inside the good region: add `A` with a macro that shadows the base macro `c`, add `B` that uses it,
+set a default, remove `A` again — `GoodRun` holds, so `run_inv` applies to it -/
+example : GoodRun wcfg (empty wcfg)
+    [.add [65] [] (some [([99], [122])]), .add [66] xc none, .setDefault (some [[66]]), .remove (some [65])] := by
+  refine ⟨⟨Or.inl (by decide), ?_⟩, ⟨Or.inl (by decide), ?_⟩, trivial, ?_, trivial⟩
+  · intro n hn
+    have : n = [65] := by simpa [addNames, empty] using hn
+    subst this
+    exact ⟨_, rfl⟩
+  · intro n hn
+    have : n = [65] ∨ n = [66] := by
+      have h : n ∈ [[65], [66]] := hn
+      simpa using h
+    cases this with
+    | inl h => subst h; exact ⟨_, rfl⟩
+    | inr h => subst h; exact ⟨_, rfl⟩
+  · intro _ n hn
+    have : n = [66] := by
+      have h : n ∈ [[66]] := hn
+      simpa using h
+    subst this
+    exact ⟨_, rfl⟩
+
+/-- the guard of `removeAll_inv_partial` is satisfiable with a profile registered -/
+example : SameEnv (envOf wcfg.base (run wcfg (empty wcfg) [.add [65] xc none]).raw
+    (run wcfg (empty wcfg) [.add [65] xc none]).names) wcfg.base := fun _ => rfl
+
 end CssVerif.C14
